@@ -15,11 +15,15 @@
    of a reflected member (the correspondence check covers those on the implementation).
    m == v: the same coefficient on every blade; Permutation m v: moreover the same stored blades.
    Number literals stand for numbers whose str() reads back exactly (int, float): known finding F19.
-   The symbolic=True route: only one step is proved ([C11_symbolic_step_partial]); it fails on the real code
-   for sqrt / norm / normalized (known finding F18).  Statements only; proofs in Theory/Tape.v. *)
+   The symbolic=True route ([C11_symbolic_agree], Theory/TapeSymbolic.v): [symbolic_run] = [direct] over the
+   RationalPolynomial coefficients with OperatorDict.filter after every operator call; whenever f(args) returns
+   in the table of the polynomial operators (the division-free fragment: inv, div, sqrt, norm, normalized, negative
+   powers raise there; on the real code sqrt / norm / normalized fail, known finding F18) the symbolic run returns
+   and its coefficient expressions evaluate to the coefficients of f(args).
+   Statements only; proofs in Theory/Tape.v, Theory/TapeSymbolic.v. *)
 From Coq Require Import String List ZArith Permutation Ring_theory.
 From KV Require Import Model.All Model.Composite Model.Poly Model.Tape Gen.Dunder.
-From KV Require Import Theory.WF Theory.Sparse Theory.Poly Theory.Natural Theory.Tape.
+From KV Require Import Theory.WF Theory.Sparse Theory.Poly Theory.Natural Theory.Tape Theory.TapeSymbolic.
 Import ListNotations.
 
 (* whenever f(args) returns, alg.register(f)(args) returns the same multivector - every well-formed algebra,
@@ -137,7 +141,7 @@ Proof. exact (conj mv_defs_pinned (conj tape_defs_pinned (conj glue_defs_pinned 
 Print Assumptions C11_source_pinned.
 
 (* symbolic=True: one step (an operator of the table on symbolic operands, zero filter, evaluation) commutes with
-   evaluation; the induction over bodies is NOT proved, and sqrt / norm fail on the real code (F18) *)
+   evaluation (kept; the induction over bodies is C11_symbolic_agree below) *)
 Theorem C11_symbolic_step_partial : forall (R : Type) (rO rI : R) (radd rmul rsub : R -> R -> R) (ropp : R -> R)
     (Rth : ring_theory rO rI radd rmul rsub ropp (@eq R)) (rho : nat -> R) (A : alg), wf_alg A = true ->
   forall op f, sassoc op poly2_table = Some f ->
@@ -149,6 +153,109 @@ Theorem C11_symbolic_step_partial : forall (R : Type) (rO rI : R) (radd rmul rsu
 Proof. exact symbolic_step_partial. Qed.
 Print Assumptions C11_symbolic_step_partial.
 
+(* ---------------- alg.register(symbolic=True)(f) ----------------
+   [symbolic_run OT A F opd ..] = do_codegen(f, symbolic multivectors): MultiVector's members exactly as in [direct]
+   ([directG], C11_symbolic_run_is_direct), every operator call followed by the filter [F operands result], a call of
+   a registered function = its compiled tape on the symbolic value lists.  [sym_args 0 (map keys xs)] = one
+   RationalPolynomial variable per stored key of each argument, [valuation rO xs] = the stored values of xs.
+   For every well-formed algebra, commutative ring, filter that only drops coefficients testing zero, body with
+   integer literals (any depth of calls of registered functions), arguments with pairwise distinct stored blades:
+   whenever f( *xs) returns w in the table of the polynomial operators (no_ext: the division-free fragment), the
+   symbolic run returns a value v of the same kind (number / multivector), and the coefficient expressions of v -
+   as stored, and in the canonical order do_codegen compiles them in - evaluated at the values of xs are the
+   coefficients of w on every blade. *)
+Theorem C11_symbolic_agree : forall (R : Type) (rO rI : R) (radd rmul rsub : R -> R -> R) (ropp : R -> R),
+  ring_theory rO rI radd rmul rsub ropp (@eq R) ->
+  forall A : alg, wf_alg A = true ->
+  forall (F : list (mv rpoly) -> mv rpoly -> mv rpoly) (mvtab tapetab : mtable) (bodies : list (expr Z)),
+  drops_zero_tests A F ->
+  forall (fuel : nat) (body : expr Z) (xs : list (mv R)) (w : val),
+    Forall (wfm R A) xs ->
+    direct (mkOps R radd rsub rmul ropp rO rI) A (std_opd (mkOps R radd rsub rmul ropp rO rI) A no_ext) mvtab tapetab
+           (map (emap (Poly.zinj R rO rI radd rmul ropp)) bodies) fuel xs (emap (Poly.zinj R rO rI radd rmul ropp) body) = Ok w ->
+    exists v, symbolic_run Rops A F (std_opd Rops A no_ext) mvtab tapetab (map (emap R_of_Z) bodies) fuel
+                           (sym_args 0 (map keys xs)) (emap R_of_Z body) = Ok v
+              /\ val_is_num v = val_is_num w
+              /\ Sparse.equiv rO rI radd rmul rsub ropp
+                   (map_mv (Poly.N R rO rI radd rmul ropp (valuation rO xs)) (as_mv v)) (as_mv w)
+              /\ Sparse.equiv rO rI radd rmul rsub ropp
+                   (map_mv (Poly.N R rO rI radd rmul ropp (valuation rO xs)) (canon_sort A (as_mv v))) (as_mv w).
+Proof. exact symbolic_call_agrees. Qed.
+Print Assumptions C11_symbolic_agree.
+
+(* the same for ANY symbolic arguments with coefficients in the symbol class (any numbering / sharing of variables,
+   any polynomial coefficients) and ANY valuation rho: the numeric arguments are their evaluation *)
+Theorem C11_symbolic_agree_any_valuation : forall (R : Type) (rO rI : R) (radd rmul rsub : R -> R -> R) (ropp : R -> R),
+  ring_theory rO rI radd rmul rsub ropp (@eq R) ->
+  forall (rho : nat -> R) (A : alg), wf_alg A = true ->
+  forall (F : list (mv rpoly) -> mv rpoly -> mv rpoly) (mvtab tapetab : mtable) (bodies : list (expr Z)),
+  drops_zero_tests A F ->
+  forall (fuel : nat) (body : expr Z) (xs : list (mv rpoly)) (w : val),
+    Forall (all_coeffs rpolyQ) xs -> Forall (wfm rpoly A) xs ->
+    direct (mkOps R radd rsub rmul ropp rO rI) A (std_opd (mkOps R radd rsub rmul ropp rO rI) A no_ext) mvtab tapetab
+           (map (emap (Poly.zinj R rO rI radd rmul ropp)) bodies) fuel
+           (map (map_mv (Poly.N R rO rI radd rmul ropp rho)) xs) (emap (Poly.zinj R rO rI radd rmul ropp) body) = Ok w ->
+    exists v, symbolic_run Rops A F (std_opd Rops A no_ext) mvtab tapetab (map (emap R_of_Z) bodies) fuel xs (emap R_of_Z body) = Ok v
+              /\ val_is_num v = val_is_num w /\ all_coeffs rpolyQ (as_mv v) /\ wfm rpoly A (as_mv v)
+              /\ Sparse.equiv rO rI radd rmul rsub ropp (map_mv (Poly.N R rO rI radd rmul ropp rho) (as_mv v)) (as_mv w).
+Proof. exact symbolic_agree. Qed.
+Print Assumptions C11_symbolic_agree_any_valuation.
+
+(* ... and for any symbol class (algebra.codegen_symbolcls): coefficients S with a representation invariant Q closed
+   under the operations, any map h that is a homomorphism on Q, any filter that only drops stored pairs whose
+   coefficient is mapped to zero, literals in Q; [simm] / [simv]: coefficients in Q, pairwise distinct blades of the
+   algebra, h of the symbolic coefficients = the numeric coefficients on every blade *)
+Theorem C11_symbolic_agree_any_symbol_class :
+  forall (S : Type) (sO sI : S) (sadd smul ssub : S -> S -> S) (sopp : S -> S) (Q : S -> Prop),
+  ops_closed (mkOps S sadd ssub smul sopp sO sI) Q ->
+  forall (R : Type) (rO rI : R) (radd rmul rsub : R -> R -> R) (ropp : R -> R),
+  ring_theory rO rI radd rmul rsub ropp (@eq R) ->
+  forall h : S -> R, ops_hom_on (mkOps S sadd ssub smul sopp sO sI) (mkOps R radd rsub rmul ropp rO rI) h Q ->
+  forall A : alg, wf_alg A = true ->
+  forall (F : list (mv S) -> mv S -> mv S) (mvtab tapetab : mtable) (bodies : list (expr S)),
+  filter_sound S Q R rO h A F -> Forall (lits Q) bodies ->
+  forall (fuel : nat) (e : expr S) (envS : list (mv S)) (envN : list (mv R)) (w : val),
+    lits Q e -> Forall2 (simm S Q R rO rI radd rmul rsub ropp h A) envS envN ->
+    direct (mkOps R radd rsub rmul ropp rO rI) A (std_opd (mkOps R radd rsub rmul ropp rO rI) A no_ext) mvtab tapetab
+           (map (emap h) bodies) fuel envN (emap h e) = Ok w ->
+    exists v, symbolic_run (mkOps S sadd ssub smul sopp sO sI) A F (std_opd (mkOps S sadd ssub smul sopp sO sI) A no_ext)
+                           mvtab tapetab bodies fuel envS e = Ok v
+              /\ simv S Q R rO rI radd rmul rsub ropp h A v w.
+Proof. exact symbolic_sim. Qed.
+Print Assumptions C11_symbolic_agree_any_symbol_class.
+
+(* the hypothesis on the filter is satisfied by OperatorDict.filter of the default mode - applied always, or only
+   when an operand stores a symbolic coefficient (`if issymbolic and simp_func`) - and by no filter at all *)
+Theorem C11_symbolic_filters : forall A : alg,
+  drops_zero_tests A (fun _ => filter_nz rzero) /\ drops_zero_tests A filter_if_symbolic /\ drops_zero_tests A (fun _ X => X)
+  /\ (forall c : list (mv rpoly) -> bool, drops_zero_tests A (fun xs X => if c xs then filter_nz rzero X else X)).
+Proof. exact (fun A => conj (drops_filter_nz A) (conj (drops_if_symbolic A) (conj (drops_nothing A) (drops_when A)))). Qed.
+Print Assumptions C11_symbolic_filters.
+
+(* the hypothesis "f( *xs) returns in the table of the polynomial operators alone" selects the runs that never call
+   inv / div / sqrt, it does not change what f computes: such a run returns the same value in the table extended by
+   ANY ext (the table of C11_agree) *)
+Theorem C11_division_free_run_is_a_run : forall (T : Type) (OT : ops T) (A : alg) (ext : optable T) (mvtab tapetab : mtable)
+    (bodies : list (expr T)) (fuel : nat) (env : list (mv T)) (e : expr T) (w : val),
+  direct OT A (std_opd OT A no_ext) mvtab tapetab bodies fuel env e = Ok w ->
+  direct OT A (std_opd OT A ext) mvtab tapetab bodies fuel env e = Ok w.
+Proof. exact (@direct_noext_le). Qed.
+Print Assumptions C11_division_free_run_is_a_run.
+
+(* nothing of MultiVector is modelled a second time: [direct] is [directG] at the table, and the symbolic run with the
+   filter that keeps everything is [direct] over the symbol coefficients *)
+Theorem C11_symbolic_run_is_direct :
+  (forall (T : Type) (OT : ops T) (A : alg) (opd : optable T) (mvtab tapetab : mtable) (bodies : list (expr T))
+          (fuel : nat) (env : list (mv T)) (e : expr T),
+     direct OT A opd mvtab tapetab bodies fuel env e
+     = directG OT A (call_op opd) (registered OT A opd tapetab bodies) mvtab fuel env e) /\
+  (forall (T : Type) (OT : ops T) (A : alg) (opd : optable T) (mvtab tapetab : mtable) (bodies : list (expr T))
+          (fuel : nat) (env : list (mv T)) (e : expr T),
+     symbolic_run OT A (fun _ r => r) opd mvtab tapetab bodies fuel env e
+     = direct OT A opd mvtab tapetab bodies fuel env e).
+Proof. exact (conj (@directG_direct) (@symbolic_run_nofilter)). Qed.
+Print Assumptions C11_symbolic_run_is_direct.
+
 (* non-vacuity: a closed instance (integers, Algebra(2), a body with coefficient access in a permuted spelling,
    a number on the left of -, grade selection, a call of another registered function, ~ and a power) *)
 Theorem C11_example :
@@ -157,3 +264,18 @@ Theorem C11_example :
               Permutation m (as_mv v) /\ m <> [].
 Proof. exact example_agrees. Qed.
 Print Assumptions C11_example.
+
+(* non-vacuity of the symbolic route: the same bodies and arguments, the symbolic run returns four coefficient
+   polynomials in six variables that evaluate to the coefficients of f( *xs) *)
+Theorem C11_symbolic_example :
+  exists v w,
+    direct Zops exA (std_opd Zops exA no_ext) mv_methods tape_methods
+           (map (emap (Poly.zinj Z 0%Z 1%Z Z.add Z.mul Z.opp)) exbodies) 40 exargs
+           (emap (Poly.zinj Z 0%Z 1%Z Z.add Z.mul Z.opp) (nth 1 exbodies (ENum 0%Z))) = Ok w /\
+    symbolic_run Rops exA filter_if_symbolic (std_opd Rops exA no_ext) mv_methods tape_methods
+                 (map (emap R_of_Z) exbodies) 40 (sym_args 0 (map keys exargs)) (emap R_of_Z (nth 1 exbodies (ENum 0%Z))) = Ok v /\
+    Sparse.equiv 0%Z 1%Z Z.add Z.mul Z.sub Z.opp
+      (map_mv (Poly.N Z 0%Z 1%Z Z.add Z.mul Z.opp (valuation 0%Z exargs)) (as_mv v)) (as_mv w) /\
+    as_mv w = [(0, 28); (1, 76); (2, 116); (3, 128)]%Z.
+Proof. exact symbolic_example. Qed.
+Print Assumptions C11_symbolic_example.
